@@ -127,7 +127,14 @@ def install(E):
                             return SF(y.t * rv(c), bits, lo, hi, exact=y.exact and c.denominator == 1, taint=tn)
             return rounded(s, st, a.t * b.t, lo, hi, bits, tn, a.exact and b.exact)
         if op == 'fdiv':
-            if b.lo <= 0 <= b.hi: raise EngineError('real-error mode: cannot exclude division by zero')
+            if b.lo <= 0 <= b.hi:
+                # the interval cannot exclude zero: ask the solver (integer-valued divisors: at least 1 in magnitude)
+                r1, _ = s.query(st, b.t <= 0)
+                if r1 == 'unsat' and b.exact: b = SF(b.t, b.bits, Fraction(1), max(b.hi, Fraction(1)), exact=True, taint=b.taint)
+                else:
+                    r2, _ = s.query(st, b.t >= 0)
+                    if r2 == 'unsat' and b.exact: b = SF(b.t, b.bits, min(b.lo, Fraction(-1)), Fraction(-1), exact=True, taint=b.taint)
+                    else: raise EngineError('real-error mode: cannot exclude division by zero')
             qs = (a.lo / b.lo, a.lo / b.hi, a.hi / b.lo, a.hi / b.hi)
             return rounded(s, st, a.t / b.t, min(qs), max(qs), bits, tn, False)
         raise EngineError('real-error mode: ' + op)
